@@ -150,6 +150,9 @@ type c12Decl struct {
 
 type c12Layout struct {
 	Decls []c12Decl `json:"decls"`
+	// LineAt: index of the declaration in front of which a //line directive stands (positions below it are reported in
+	// another file); 0 = none
+	LineAt int `json:"lineat,omitempty"`
 }
 
 var c12Words = []string{"Does things.", "x = y", "see Other", "a // b", "note: careful", "TODO(me): later", "中文 doc", "tail"}
@@ -233,6 +236,9 @@ func genC12Layout(t *rapid.T) c12Layout {
 		}
 		l.Decls = append(l.Decls, d)
 	}
+	if rapid.IntRange(0, 4).Draw(t, "linedirective") == 0 {
+		l.LineAt = rapid.IntRange(1, len(l.Decls)-1).Draw(t, "lineat")
+	}
 	return l
 }
 
@@ -268,6 +274,9 @@ func (l c12Layout) source() string {
 	for di, d := range l.Decls {
 		if di > 0 && !d.Tight {
 			b.WriteString("\n")
+		}
+		if l.LineAt > 0 && di == l.LineAt {
+			b.WriteString("\n//line zz_grammar.y:100\n\n")
 		}
 		d.Item.lead(b, "")
 		open := ""
@@ -472,6 +481,9 @@ func c12Features(l c12Layout) []string {
 			fs["multi-line-declaration-with-trailing-comment"] = true
 		}
 		prevTrailing = it.Trailing != ""
+	}
+	if l.LineAt > 0 {
+		fs["line-directive"] = true
 	}
 	for _, d := range l.Decls {
 		if d.OpenCmt != "" {
